@@ -461,6 +461,11 @@ def main(report, tier):
         specs = [s for k in kernels for s in k.specs]       # all specializations, N=2
     else:
         specs = [s for k in kernels for s in k.specs]
+    if tier == 'quick':
+        # units whose definition-vs-kernel query does not finish within the quick budget; they are examined by the thorough tier and
+        # their semantics is covered by C01 (jagged_apply), C07 (combinations_length) and C03 (float products)
+        skip = re.compile(r'getitem_jagged_apply|reduce_prod_float')
+        specs = [s for s in specs if not skip.search(s.name)]
     only = __import__('os').environ.get('VERIF_ONLY')
     if only:
         specs = [s for s in specs if any(x in s.name for x in only.split(','))]
